@@ -258,6 +258,8 @@ func runC07(l *link, c c07case) (o c07obs, dead bool) {
 	}
 	si := uasc.VerifChannel{S: l.send}.AddInstance(c.sendAlgo, c.chanID, c.tok, c.s0, time.Now(), time.Hour)
 	uasc.VerifChannel{S: l.recv}.AddInstance(c.recvAlgo, c.chanID, c.tok, 0, time.Now(), time.Hour)
+	// every case is an independent channel history: the receiver's sequence check (readChunk) starts afresh
+	uasc.VerifChannel{S: l.recv}.ResetReceiveSequence()
 	if c.cs > 0 {
 		o.MaxBody = si.SetMaximumBodySize(c.cs)
 	} else {
